@@ -42,7 +42,8 @@
 From Coq Require Import List NArith ZArith.
 From Emmet Require Import lib.Base gen.GenHtml model.HtmlScan model.HtmlMatch model.HtmlActions
   proofs.HtmlScanProofs proofs.HtmlFoldProofs proofs.HtmlC16Proofs proofs.HtmlActionsProofs proofs.HtmlSelectFull
-  proofs.HtmlRender proofs.HtmlRenderScan proofs.HtmlRenderCompose proofs.HtmlSelectText.
+  proofs.HtmlRender proofs.HtmlRenderScan proofs.HtmlRenderCompose proofs.HtmlSelectText
+  proofs.XmlNames proofs.XmlNamesActions.
 Import ListNotations.
 Local Open Scope Z_scope.
 
@@ -250,4 +251,35 @@ Example C17_html_text_nonvacuous :
   option_map written_model (select_tag 30 false (tags_of d)) = Some (mkSel 31 36 [(32, 34)]) /\
   option_map written_model (select_tag 30 true (tags_of d)) =
     Some (mkSel 0 26 [(1, 2); (3, 14); (10, 13); (10, 11); (12, 13); (15, 19); (18, 19); (20, 25); (23, 24)]).
+Proof. vm_compute. repeat split; reflexivity. Qed.
+
+(* ================================================================== tags named by ANY XML Name *)
+(* The names of the grammar above are exactly the Names of XML 1.0 (5th ed.) sect. 2.3 over the complete NameStartChar /
+   NameChar productions, all planes (props/C09.v: C09_grammar_names_are_xml_names, C09_name_char_is_xml).  Spelled out
+   for the document `<n a="v">t</n>` = render (xdoc n a v t) (C09_xdoc_text), n and a ANY XML Names (xdoc_ok; CJK,
+   Hangul, U+200C/U+200D, astral letters ...): [xtag n a v] is its open tag at offset 0 with the attribute as written *)
+Theorem C17_html_select_xml_named_tag :
+  forall (o : opts) (n a v t : str) (pos : Z) (is_prev : bool),
+    xdoc_ok (o_special o) n a v t ->
+    select_item_html o (render (xdoc n a v t)) pos is_prev =
+    Ok (option_map written_model (select_tag pos is_prev [xtag n a v])).
+Proof. exact select_xml_named_pair. Qed.
+Print Assumptions C17_html_select_xml_named_tag.
+
+Theorem C17_html_open_tag_xml_named_tag :
+  forall (n a v t : str) (pos : Z),
+    xdoc_ok (o_special default_opts) n a v t ->
+    0 < pos < Z.of_N (x_oe n a v) ->
+    get_open_tag (render (xdoc n a v t)) pos = Ok (Some (ctx_of_tag (xtag n a v))).
+Proof. exact open_tag_xml_named_pair. Qed.
+Print Assumptions C17_html_open_tag_xml_named_tag.
+
+(* non-vacuity: the document of the defect report with both names beyond U+1FFF: tag name, attribute, value inside
+   the quotes; get_open_tag inside the attribute name reports the attribute token at [4, 6) with value at [7, 10) *)
+Example C17_html_xml_names_nonvacuous :
+  let n := [0x65E5; 0x672C]%N in let a := [0x540D; 0x524D]%N in
+  xml_name n = true /\ xml_name a = true /\
+  select_item_html default_opts (render (xdoc n a [49] [120])%N) 0 false = Ok (Some (mkSel 0 11 [(1, 3); (4, 10); (8, 9)])) /\
+  get_open_tag (render (xdoc n a [49] [120])%N) 5 =
+    Ok (Some (mkCtxTag n EOpen 0 11 (Some [mkAttr a 4 6 (Some ([34; 49; 34], 7, 10))%N]))).
 Proof. vm_compute. repeat split; reflexivity. Qed.
